@@ -170,3 +170,45 @@ func VerifC15Process() {
 		vrt.Assert(end.ResultCode == message.ResultCodeSuccess, "c15/reply-success-code")
 	}
 }
+
+// VerifC15Stream: a request the manager finishes is answered whatever came
+// before it on the connection: n requests the manager fails for (alternating
+// phases, any branch type), then one it finishes.
+func VerifC15Stream() {
+	n := vrt.Param("failures", 10)
+	RegisterProcessor()
+	var calls []c15Call
+	types := []branch.BranchType{branch.BranchTypeAT, branch.BranchTypeTCC, branch.BranchTypeXA}
+	typ := types[vrt.Choice("type", 3)]
+	m := &c15Manager{typ: typ, calls: &calls}
+	rm.GetRmCacheInstance().RegisterResourceManager(m)
+	var replies []c15Reply
+	vrt.Redirect((*getty.GettyRemotingClient).SendAsyncResponse, func(_ *getty.GettyRemotingClient, id int32, msg interface{}) error {
+		replies = append(replies, c15Reply{id, msg})
+		return nil
+	})
+	firstPhase := vrt.Choice("first.phase", 2)
+	for k := 0; k < n; k++ {
+		r := c15Req{id: int32(100 + k), xid: "x", branchID: int64(k + 1), typ: typ, resource: "r", rollback: (k+firstPhase)%2 == 1,
+			status: branch.BranchStatusPhasetwoCommitFailedRetryable, fail: true}
+		m.status, m.fail = r.status, r.fail
+		go getty.GetGettyClientHandlerInstance().OnMessage(nil, r.message())
+		vrt.Settle()
+	}
+	vrt.Assert(len(calls) == n, "c15/stream/every-failing-request-reached-its-manager")
+	last := c15Req{id: vrt.Int32("last.id"), xid: "y", branchID: vrt.Int64("last.branch"), typ: typ, resource: "r",
+		rollback: vrt.Choice("last.phase", 2) == 1, status: branch.BranchStatusPhasetwoCommitted}
+	if last.rollback {
+		last.status = branch.BranchStatusPhasetwoRollbacked
+	}
+	m.status, m.fail = last.status, false
+	nr := len(replies)
+	go getty.GetGettyClientHandlerInstance().OnMessage(nil, last.message())
+	vrt.Settle()
+	vrt.Reach("c15/stream/done")
+	vrt.Assert(len(calls) == n+1, "c15/stream/request-after-failures-reaches-its-manager")
+	vrt.Assert(len(replies) == nr+1, "c15/stream/request-after-failures-is-answered")
+	if len(replies) == nr+1 {
+		vrt.Assert(replies[nr].id == last.id, "c15/stream/reply-carries-request-id")
+	}
+}
